@@ -674,6 +674,7 @@ package apd
 //@   loop 1 invariant #i >= -1 && (#i < len(xs) || #i == -1) && sum == sumupto(xs, #i + 1) && nobadupto(xs, #i + 1)
 //@   loop 1 decreases len(xs) - #i
 //@   ensures [inv] (d.Form == old(d.Form) || d.Form == Infinite) && val(d.Coeff) >= 0 && (closed(res) ==> closed(ret))
+//@   ensures [arith] only(res, Inexact | Rounded | Subnormal | Underflow | Overflow | Clamped | SystemOverflow | SystemUnderflow) ==> only(ret, Inexact | Rounded | Subnormal | Underflow | Overflow | Clamped | SystemOverflow | SystemUnderflow)
 //@   ensures [sys] syscode(xs, sumupto(xs, len(xs)) + nd10(old(val(d.Coeff))) - 1) != 0 ==> (ret == syscode(xs, sumupto(xs, len(xs)) + nd10(old(val(d.Coeff))) - 1) && unchanged(d))
 //@   ensures [plain] ctxsane(c) && syscode(xs, sumupto(xs, len(xs)) + nd10(old(val(d.Coeff))) - 1) == 0 && sumupto(xs, len(xs)) + nd10(old(val(d.Coeff))) - 1 >= c.MinExponent && sumupto(xs, len(xs)) + nd10(old(val(d.Coeff))) - 1 <= c.MaxExponent ==> ret == (res | flag(has(res, Inexact) && has(res, Subnormal), Underflow)) && val(d.Coeff) == old(val(d.Coeff)) && d.Exponent == sumupto(xs, len(xs)) && d.Form == old(d.Form)
 //@   ensures [main] ctxsane(c) && syscode(xs, sumupto(xs, len(xs)) + nd10(old(val(d.Coeff))) - 1) == 0 ==> SEmain(c, old(d.Form), old(d.Negative), old(val(d.Coeff)), sumupto(xs, len(xs)), sumupto(xs, len(xs)) + nd10(old(val(d.Coeff))) - 1, res, d, ret)
@@ -729,6 +730,7 @@ package apd
 //@   hint pow10_add(c.Precision - 1, etiny(c) - x.Exponent)
 //@   hint div_lt(val(x.Coeff), pow10(etiny(c) - x.Exponent), pow10(c.Precision - 1))
 //@   ensures [inv] inv(d) && closed(ret)
+//@   ensures [arith] only(ret, Inexact | Rounded | Subnormal | Underflow | Overflow | Clamped | SystemOverflow | SystemUnderflow)
 //@   ensures [exact0] disableIfPrecisionZero && p0ctx(c) && old(x.Form == Finite && inv(x)) && old(inlimits0(c, val(x.Coeff), x.Exponent)) ==> Exact0(old(x.Negative), old(val(x.Coeff)), old(x.Exponent), d, ret)
 //@   ensures [esys] (disableIfPrecisionZero || c.Precision != 0) && (old(x.Exponent) < -100000 || old(x.Exponent) > 100000) ==> hassys(ret)
 //@   ensures [infovf] old(finwfI(c, x)) && old(x.Exponent) + nd10(old(val(x.Coeff))) - 1 > c.MaxExponent ==> hassys(ret) || (d.Form == Infinite && d.Negative == old(x.Negative) && only(ret, Rounded | Inexact | Overflow | Clamped))
@@ -795,6 +797,7 @@ package apd
 //@   assigns d
 //@   outs d
 //@   ensures [inv] inv(d) && closed(ret)
+//@   ensures [arith] only(ret, Inexact | Rounded | Subnormal | Underflow | Overflow | Clamped | SystemOverflow | SystemUnderflow)
 //@   ensures [exact0] p0ctx(c) && old(x.Form == Finite) && old(inlimits0(c, val(x.Coeff), x.Exponent)) ==> Exact0(old(x.Negative), old(val(x.Coeff)), old(x.Exponent), d, ret)
 //@   ensures [rounded] wfctx(c) && old(x.Form) == Finite ==> Rounded(c, old(x.Negative), old(val(x.Coeff)), old(x.Exponent), d, ret)
 //@   ensures [fits] wfctx(c) && !hassys(ret) ==> fits(c, d)
@@ -1636,6 +1639,7 @@ package apd
 //@   assigns d
 //@   outs d
 //@   ensures [inv] inv(d) && closed(ret) && (d.Form == old(v.Form) || d.Form == Infinite) && d.Negative == old(v.Negative)
+//@   ensures [arith] only(ret, Inexact | Rounded | Subnormal | Underflow | Overflow | Clamped | SystemOverflow | SystemUnderflow)
 //@   hint pow10_add(nd10(val(v.Coeff)), exp - v.Exponent - nd10(val(v.Coeff)))
 //@   hint div_lt(val(v.Coeff), pow10(exp - v.Exponent), 1)
 //@   hint nd10(val(v.Coeff)) < exp - v.Exponent ==> 10 * pow10(nd10(val(v.Coeff))) <= pow10(exp - v.Exponent)
@@ -1701,10 +1705,11 @@ package apd
 //@   ensures [invkeep] old(inv(d)) ==> inv(d)
 //@   ensures [closed] closed(ret0) && none(ret0, Overflow | Underflow)
 //@   ensures [trap] ret1 != nil <==> trapped(c, ret0)
+//@   ensures [invalidnan] has(ret0, InvalidOperation) ==> d.Form == NaN
 //@   ensures [nan] NaN1(x, d, ret0)
 //@   ensures [inf] old(x.Form) == Infinite ==> (d.Form == NaN && ret0 == InvalidOperation)
-//@   ensures [valueup] wfctx(c) && old(qguard(c, x, exp)) && exp <= old(x.Exponent) && etiny(c) <= exp && exp <= c.MaxExponent && nd10(old(val(x.Coeff)) * pow10(old(x.Exponent) - exp)) <= c.Precision && exp + nd10(old(val(x.Coeff)) * pow10(old(x.Exponent) - exp)) - 1 <= c.MaxExponent ==> (d.Form == Finite && val(d.Coeff) == old(val(x.Coeff)) * pow10(old(x.Exponent) - exp) && d.Exponent == exp && d.Negative == old(x.Negative) && (has(ret0, Inexact) <==> (exp > old(x.Exponent) && RR(old(val(x.Coeff)), exp - old(x.Exponent)) != 0)) && (has(ret0, Inexact) ==> has(ret0, Rounded)))
-//@   ensures [valuedown] wfctx(c) && old(qguard(c, x, exp)) && exp > old(x.Exponent) && etiny(c) <= exp && exp <= c.MaxExponent && nd10(RND(c.Rounding, old(x.Negative), old(val(x.Coeff)), exp - old(x.Exponent))) <= c.Precision && exp + nd10(RND(c.Rounding, old(x.Negative), old(val(x.Coeff)), exp - old(x.Exponent))) - 1 <= c.MaxExponent ==> hassys(ret0) || (d.Form == Finite && val(d.Coeff) == RND(c.Rounding, old(x.Negative), old(val(x.Coeff)), exp - old(x.Exponent)) && d.Exponent == exp && d.Negative == old(x.Negative) && (has(ret0, Inexact) <==> (exp > old(x.Exponent) && RR(old(val(x.Coeff)), exp - old(x.Exponent)) != 0)) && (has(ret0, Inexact) ==> has(ret0, Rounded)))
+//@   ensures [valueup] wfctx(c) && old(qguard(c, x, exp)) && exp <= old(x.Exponent) && etiny(c) <= exp && exp <= c.MaxExponent && nd10(old(val(x.Coeff)) * pow10(old(x.Exponent) - exp)) <= c.Precision && exp + nd10(old(val(x.Coeff)) * pow10(old(x.Exponent) - exp)) - 1 <= c.MaxExponent ==> (d.Form == Finite && val(d.Coeff) == old(val(x.Coeff)) * pow10(old(x.Exponent) - exp) && d.Exponent == exp && d.Negative == old(x.Negative) && (has(ret0, Inexact) <==> (exp > old(x.Exponent) && RR(old(val(x.Coeff)), exp - old(x.Exponent)) != 0)) && (has(ret0, Inexact) ==> has(ret0, Rounded)) && (has(ret0, Subnormal) <==> (val(d.Coeff) != 0 && exp + nd10(val(d.Coeff)) - 1 < c.MinExponent)))
+//@   ensures [valuedown] wfctx(c) && old(qguard(c, x, exp)) && exp > old(x.Exponent) && etiny(c) <= exp && exp <= c.MaxExponent && nd10(RND(c.Rounding, old(x.Negative), old(val(x.Coeff)), exp - old(x.Exponent))) <= c.Precision && exp + nd10(RND(c.Rounding, old(x.Negative), old(val(x.Coeff)), exp - old(x.Exponent))) - 1 <= c.MaxExponent ==> hassys(ret0) || (d.Form == Finite && val(d.Coeff) == RND(c.Rounding, old(x.Negative), old(val(x.Coeff)), exp - old(x.Exponent)) && d.Exponent == exp && d.Negative == old(x.Negative) && (has(ret0, Inexact) <==> (exp > old(x.Exponent) && RR(old(val(x.Coeff)), exp - old(x.Exponent)) != 0)) && (has(ret0, Inexact) ==> has(ret0, Rounded)) && (has(ret0, Subnormal) <==> (val(d.Coeff) != 0 && exp + nd10(val(d.Coeff)) - 1 < c.MinExponent)))
 //@   ensures [range] wfctx(c) && old(x.Form == Finite) && (exp < etiny(c) || (exp > c.MaxExponent && old(inrange(x)) && exp <= 100000 && exp - old(x.Exponent) <= 100000 && old(x.Exponent) - exp <= 100000)) ==> (d.Form == NaN && ret0 == InvalidOperation)
 //@   ensures [toomanyup] wfctx(c) && old(qguard(c, x, exp)) && exp <= old(x.Exponent) && etiny(c) <= exp && exp <= c.MaxExponent && nd10(old(val(x.Coeff)) * pow10(old(x.Exponent) - exp)) > c.Precision ==> (d.Form == NaN && ret0 == InvalidOperation)
 //@   ensures [toomanydown] wfctx(c) && old(qguard(c, x, exp)) && exp > old(x.Exponent) && etiny(c) <= exp && exp <= c.MaxExponent && nd10(RND(c.Rounding, old(x.Negative), old(val(x.Coeff)), exp - old(x.Exponent))) > c.Precision ==> hassys(ret0) || (d.Form == NaN && ret0 == InvalidOperation)
